@@ -534,6 +534,29 @@ func c12Run(c *core.Ctx) {
 				n++
 			}
 		}
+		// network access identifiers of every length 1..300 (the mobile identity element holds up to 65 535 octets; a realistic
+		// NAI with an ECIES scheme output and a 3GPP realm has 150..200): user part, with and without a realm, the '@' at the
+		// front, in the middle and at the end
+		for l := 1; l <= 300; l++ {
+			for _, shape := range []int{0, 1, 2, 3} {
+				nai := bytes.Repeat([]byte{'u'}, l)
+				realm := []byte("@nai.5gc.mnc093.mcc208.3gppnetwork.org")
+				switch shape {
+				case 1:
+					if l > len(realm) {
+						copy(nai[l-len(realm):], realm)
+					} else {
+						nai[l/2] = '@'
+					}
+				case 2:
+					nai[0] = '@'
+				case 3:
+					nai[l-1] = '@'
+				}
+				c12SuciExec(c, c12Suci{Nai: hex.EncodeToString(nai)})
+				n++
+			}
+		}
 	}
 	// IMEI / IMEISV: per-position digits
 	if c.Shard == 1%c.NShards && c.Begin("pei", "Pei", "per-position digits") {
